@@ -468,7 +468,11 @@ def cap_distance(x, cm, points):
         xyz = points
     else:
         raise ValueError("Inappropriate shape for point!")
-    dotprod = np.dot(xyz, x)
+    #
+    # Round-off can put the dot product of two unit vectors one ulp outside
+    # [-1, 1] (a point at the centre or antipode of the cap).
+    #
+    dotprod = np.clip(np.dot(xyz, x), -1.0, 1.0)
     cdist = np.degrees(np.arccos(1.0 - np.abs(cm)) - np.arccos(dotprod))
     if cm < 0:
         cdist *= -1.0
